@@ -250,12 +250,19 @@ def playback(h, featset, timeout, suffix=""):
         m = re.search(r'VERIFICATION:- (SUCCESSFUL|FAILED)', out)
         d["status"] = m.group(1) if m else None
     vals = None
-    m = re.search(r'let concrete_vals: Vec<Vec<u8>> = vec!\[(.*?)\n\s*\];', out, re.S)
-    if m:
-        vals = []
-        for vm in re.finditer(r'vec!\[([\d, ]*)\]', m.group(1)):
-            t = vm.group(1).strip()
-            vals.append([int(x) for x in t.split(",") if x.strip()] if t else [])
+    # one playback test is printed per failed check AND per satisfied cover property: take the first one that belongs
+    # to a failed check (a cover's witness is an input on which nothing fails)
+    for seg in out.split("Concrete playback unit test for")[1:]:
+        kind = re.search(r'Check for `(\w+)`', seg)
+        if kind and kind.group(1) == "cover":
+            continue
+        m = re.search(r'let concrete_vals: Vec<Vec<u8>> = vec!\[(.*?)\n\s*\];', seg, re.S)
+        if m:
+            vals = []
+            for vm in re.finditer(r'vec!\[([\d, ]*)\]', m.group(1)):
+                t = vm.group(1).strip()
+                vals.append([int(x) for x in t.split(",") if x.strip()] if t else [])
+            break
     return vals, d, out[-3000:]
 
 
